@@ -316,7 +316,10 @@ private def ev2 : String → Outcome := fun e =>
 /-- **nested field** — a field whose format spec is itself a field, `{expr:{w}}` (any expression texts, any
     conversion, any oracle): the text of `expr` (converted) is formatted with the TEXT OF `w` as its spec, and the
     message carries two LOG watches, `expr` first, `w` second — the spec's field is evaluated in the paused frame like
-    any other field. -/
+    any other field.  Stated on `renderNested` over the PARSED segment list: the parser's reading of `{expr:{w}}` and
+    the `plainSpecs` dispatch of `renderChars` are outside this theorem (decided examples below + the correspondence
+    run cover them); that `renderNested` IS `Formatter._vformat` at depth 2 is a modelling claim, compared with the
+    real formatter on every generated nested template. -/
 theorem c16_nested_spec (ev : String → Outcome) (nm w : List Char) (cv : Option Char)
     (hn : nm ≠ []) (hnd : isDigits nm = false) (hw : nameOk false w = true) (hwn : w ≠ []) (hwd : isDigits w = false) :
     renderNested ev [.field nm cv ('{' :: (w ++ ['}']))] =
@@ -347,6 +350,66 @@ theorem c16_nested_spec (ev : String → Outcome) (nm w : List Char) (cv : Optio
     cases hf : formatStr obj (ev (String.ofList w)).text.toList with
     | error e => simp
     | ok t => simp
+
+/-- **watch order** — at every level of the formatter, for every way of formatting specs (`specR`): when a list of
+    segments starting with a field renders, its LOG watches are the field's own expression FIRST, then the watches of
+    the fields inside its format spec (in the order the spec renders them), then those of the rest — and the automatic
+    numbering is handed on in that same order. -/
+theorem c16_nested_watch_order (ev : String → Outcome)
+    (specR : Option Nat → List Char → Except Err (List Char × List String × Option Nat))
+    (auto : Option Nat) (nm : List Char) (cv : Option Char) (sp : List Char) (rest : List Seg)
+    (t : List Char) (ws : List String) (a : Option Nat)
+    (h : renderWith ev specR auto (.field nm cv sp :: rest) = .ok (t, ws, a)) :
+    ∃ expr auto1 spec wsSpec auto2 t' ws',
+      fieldExpr auto nm = .ok (expr, auto1) ∧ specR auto1 sp = .ok (spec, wsSpec, auto2) ∧
+      renderWith ev specR auto2 rest = .ok (t', ws', a) ∧ ws = String.ofList expr :: (wsSpec ++ ws') := by
+  simp only [renderWith] at h
+  split at h
+  · simp at h
+  · next expr auto1 hfe =>
+    split at h
+    · simp at h
+    · split at h
+      · simp at h
+      · next spec wsSpec auto2 hsp =>
+        split at h
+        · simp at h
+        · split at h
+          · next t' ws' a' hr =>
+            simp only [Except.ok.injEq, Prod.mk.injEq] at h
+            obtain ⟨-, hws, ha⟩ := h
+            subst ha
+            exact ⟨expr, auto1, spec, wsSpec, auto2, t', ws', hfe, hsp, hr, hws.symm⟩
+          · simp at h
+
+/-- **depth** — `_vformat` entered below depth 0 raises whatever the text is, so a replacement field at the deepest
+    level (inside the spec of a field that is itself inside a spec) makes the whole message fail — even with an empty
+    spec of its own. -/
+theorem c16_nested_depth (ev : String → Outcome) :
+    (∀ auto cs, renderLvl ev 0 auto cs = .error .recursion) ∧
+    (∀ auto nm cv sp rest, ∃ e, renderWith ev (renderLvl ev 0) auto (.field nm cv sp :: rest) = .error e) := by
+  refine ⟨fun _ _ => rfl, ?_⟩
+  intro auto nm cv sp rest
+  simp only [renderWith]
+  cases fieldExpr auto nm with
+  | error e => exact ⟨e, rfl⟩
+  | ok r =>
+    obtain ⟨expr, auto1⟩ := r
+    simp only
+    cases convert cv (ev (String.ofList expr)).text.toList with
+    | error e => exact ⟨e, rfl⟩
+    | ok obj => exact ⟨.recursion, rfl⟩
+
+private def fsErr (r : Except Err (List Char)) (x : Err) : Bool :=
+  match r with | .ok _ => false | .error e => decide (e = x)
+
+/-- the width of a field is frame data once specs may contain fields: beyond the model's declared bound the answer is
+    the outcome `tooWide` (nothing is materialised); a width past the ssize_t range is a spec error as in CPython -/
+example : fsErr (formatStr "ab".toList "1000001".toList) .tooWide = true ∧
+    fsErr (formatStr "ab".toList "99999999999999999999".toList) .spec = true ∧
+    fsErr (formatStr "ab".toList ".99999999999999999999".toList) .spec = true ∧
+    (match formatStr "ab".toList ">4".toList with | .ok t => decide (t = "  ab".toList) | .error _ => false) = true := by
+  decide
 
 /-- non-vacuity, and the rest of the nested grammar on concrete templates (through the parser): width from a field,
     automatic numbering running on through the spec, a failing spec field (its error text is no valid spec), a field
